@@ -31,9 +31,18 @@
      evaluated first, then the indices, as Python does) are interpreted.
    - exceptions are [Err kind] with the enum of harness/core.py; a dynamic situation the
      interpreter does not model is [Err 96] (never confused with a Python exception),
-     running out of loop fuel is [Err 98]. *)
+     running out of loop fuel is [Err 98].
+   - collections.Counter() (VCounter: a dict whose missing keys read as 0) and set() (VSet: the elements in
+     insertion order, no two ==) hold hashable scalars only (anything else is Err 96); the translator lets such a
+     value live in ONE local that is only subscripted / tested with `in` / extended with .add (pytrans.py), so it
+     never reaches ==, len, iteration or a call.  An f-string (EFmt) is the concatenation of its parts: a string is
+     itself, an int its decimal string (dec_text = Coq's DecimalString printer of Z.to_int), anything else whatever
+     the untranslated "$str" of the function table returns (Section variable ext_str of the generated module).
+     [l] * n repeats a list.  x.attr = v on an object of a translated class is a store through a path whose last step
+     is a field (SSetAttr: objects are values, the containers along the path are rebuilt). *)
 From HV Require Import Prelude.
 From Coq Require Import String QArith Qabs.
+From Coq Require DecimalString DecimalZ Ascii.
 Open Scope Z_scope.
 
 Definition E_Unsupported : Z := 96.
@@ -53,7 +62,9 @@ Inductive val :=
 | VDDict (l : list (val * val))   (* collections.defaultdict(list): a missing key reads as [] *)
 | VQ (q : Q)                    (* a finite float, by its exact value *)
 | VNaN                          (* float nan: every ordered comparison and == is False *)
-| VText (s : list Z).           (* a string by its code points (== by content, len, slicing, substring test) *)
+| VText (s : list Z)            (* a string by its code points (== by content, len, slicing, substring test) *)
+| VCounter (l : list (val * val))  (* collections.Counter(): a missing key reads as 0 *)
+| VSet (l : list val).          (* a set of hashable scalars: its elements in insertion order, no two of them == *)
 
 Section ValEq.
   Variable veq : val -> val -> bool.
@@ -88,6 +99,8 @@ Fixpoint val_eqb (a b : val) {struct a} : bool :=
   | VQ x, VQ y => Qeq_bool x y
   | VNaN, VNaN => true
   | VText x, VText y => list_eqb Z.eqb x y
+  | VCounter x, VCounter y => vdict_eqb val_eqb x y
+  | VSet x, VSet y => vlist_eqb val_eqb x y
   | _, _ => false
   end.
 
@@ -143,7 +156,29 @@ Definition truthy (v : val) : option bool :=
   | VQ q => Some (negb (Qeq_bool q 0))
   | VNaN => Some true
   | VText s => Some (match s with [] => false | _ => true end)
+  | VCounter l => Some (match l with [] => false | _ => true end)
+  | VSet l => Some (match l with [] => false | _ => true end)
   end.
+
+(* the values a set or a Counter may hold / be asked about here: immutable scalars (a tuple is hashable in Python
+   too; it is not modelled: Err 96) *)
+Definition hashable (v : val) : bool :=
+  match v with
+  | VInt _ | VBool _ | VNone | VStr _ | VNumStr _ | VText _ | VQ _ => true
+  | _ => false
+  end.
+
+(* Python's str(int) as code points: Coq's own decimal printer *)
+Definition dec_text (z : Z) : list Z :=
+  map (fun a => Z.of_N (Ascii.N_of_ascii a))
+      (String.list_ascii_of_string (DecimalString.NilEmpty.string_of_int (Z.to_int z))).
+
+(* l * n for a list *)
+Definition repeat_list {A} (l : list A) (n : Z) : list A := List.concat (repeat l (Z.to_nat n)).
+
+(* s.add(v) *)
+Definition set_add (l : list val) (v : val) : list val :=
+  if existsb (fun y => py_eq y v) l then l else l ++ [v].
 
 Inductive binop := Add | Sub | Mul | FloorDiv | Mod.
 Inductive cmpop := CEq | CNe | CLt | CLe | CGt | CGe.
@@ -179,7 +214,11 @@ Inductive expr :=
 | EText (s : list Z)                      (* a string literal, by its code points *)
 | EDict (l : list (expr * expr))          (* {k1: v1, ...}: keys and values evaluated left to right *)
 | EEnumerate (a : expr)                   (* enumerate(a) for a list or tuple: the list of (index, element) *)
-| ECopy (a : expr).                       (* a.copy() for a list or dict: lists and dicts are values *)
+| ECopy (a : expr)                        (* a.copy() for a list or dict: lists and dicts are values *)
+| ECounter                                (* collections.Counter() *)
+| ESet                                    (* set() *)
+| EFmt (parts : list expr).               (* an f-string without format specs: each part evaluated and turned into text,
+                                             left to right *)
 
 Inductive lval := LVar (x : string) | LIdx (x : string) (i : expr).
 
@@ -202,8 +241,12 @@ Inductive stmt :=
 | SOracle (x : string) (bound : Z)        (* x = np.random.randint(bound): next recorded draw, from the variable "$draws" *)
 | SShuffle (l : lval)                     (* np.random.shuffle(l): the list as the recorded shuffle left it ("$shuffles") *)
 | SChoice (x : string) (e : expr)         (* x = np.random.choice(e): e[next recorded index] ("$choices"); ValueError if e is empty *)
-| SSetPath (x : string) (path : list expr) (e : expr).
+| SSetPath (x : string) (path : list expr) (e : expr)
                                           (* x[i1]...[in] = e (n >= 1): e is evaluated first, then i1 ... in (Python's order) *)
+| SSetAdd (x : string) (e : expr)         (* x.add(e) for a set x *)
+| SSetAttr (x : string) (path : list expr) (cands : list (Z * nat)) (e : expr).
+                                          (* x[i1]...[in].attr = e (n >= 0) for an object of a translated class: e first,
+                                             then i1 ... in; (class, field index) per translated class as for EField *)
 
 Record fundef := mkfun { fparams : list string; flocals : list string; fbody : stmt }.
 
@@ -244,6 +287,8 @@ Definition binop_sem (o : binop) (a b : val) : res val :=
       match o, a, b with
       | Add, VList x, VList y => Ok (VList (x ++ y))
       | Add, VTuple x, VTuple y => Ok (VTuple (x ++ y))
+      | Mul, VList x, VInt n => Ok (VList (repeat_list x n))
+      | Mul, VInt n, VList x => Ok (VList (repeat_list x n))
       | _, _, _ => Err E_Unsupported
       end
   end.
@@ -302,6 +347,15 @@ Definition index_sem (a i : val) : res val :=
          | (k, v) :: r => if py_eq k i then Ok v else go r
          end) d
   | VText _ => Err E_Unsupported      (* s[i] (a one-character string) is not modelled *)
+  | VCounter d =>
+      if hashable i then
+        (fix go (d : list (val * val)) : res val :=
+           match d with
+           | [] => Ok (VInt 0)
+           | (k, v) :: r => if py_eq k i then Ok v else go r
+           end) d
+      else Err E_Unsupported
+  | VSet _ => Err 4
   | _ =>
     match as_seq a, i with
     | Some l, VInt z =>
@@ -364,6 +418,14 @@ Definition set_index (a i v : val) : res val :=
                     | [] => [(i, v)]
                     | (k, w) :: r => if py_eq k i then (k, v) :: r else (k, w) :: go r
                     end) d))
+  | VCounter d, _ =>
+      if hashable i then
+        Ok (VCounter ((fix go (d : list (val * val)) : list (val * val) :=
+                         match d with
+                         | [] => [(i, v)]
+                         | (k, w) :: r => if py_eq k i then (k, v) :: r else (k, w) :: go r
+                         end) d))
+      else Err E_Unsupported
   | _, _ => Err 4
   end.
 
@@ -395,10 +457,49 @@ Fixpoint set_path (a : val) (idx : list val) (v : val) : res val :=
   | i :: r => bind (index_sem a i) (fun sub => bind (set_path sub r v) (fun sub' => set_index a i sub'))
   end.
 
+(* obj.attr = v on values: the object with that field replaced *)
+Fixpoint set_nth_field (fs : list val) (n : nat) (v : val) : option (list val) :=
+  match fs, n with
+  | [], _ => None
+  | _ :: r, O => Some (v :: r)
+  | f :: r, S n' => option_map (cons f) (set_nth_field r n' v)
+  end.
+Definition set_field (a : val) (cands : list (Z * nat)) (v : val) : res val :=
+  match a with
+  | VObj c fs =>
+      match find (fun p => fst p =? c) cands with
+      | Some (_, idx) => match set_nth_field fs idx v with Some fs' => Ok (VObj c fs') | None => Err E_Unsupported end
+      | None => Err E_Unsupported
+      end
+  | _ => Err E_Unsupported
+  end.
+(* x[i1]...[in].attr = v *)
+Fixpoint set_attr_path (a : val) (idx : list val) (cands : list (Z * nat)) (v : val) : res val :=
+  match idx with
+  | [] => set_field a cands v
+  | i :: r => bind (index_sem a i) (fun sub => bind (set_attr_path sub r cands v) (fun sub' => set_index a i sub'))
+  end.
+
 Definition ftable := string -> option (list val -> res (val * list val)).
 
 Section Interp.
   Variable ft : ftable.
+
+  (* str(v) / format(v, ""): a string is itself, an int its decimal string, anything else is the untranslated "$str" *)
+  Definition str_of (v : val) : res (list Z) :=
+    match v with
+    | VText s => Ok s
+    | VInt z => Ok (dec_text z)
+    | _ =>
+      match ft "$str"%string with
+      | Some g => match g [v] with
+                  | Ok (VText s, _) => Ok s
+                  | Ok _ => Err E_Unsupported
+                  | Err k => Err k
+                  end
+      | None => Err E_Unsupported
+      end
+    end.
 
   Section Lists.
     Variable ev : expr -> res val.
@@ -412,6 +513,12 @@ Section Interp.
       match l with
       | [] => Ok d
       | (k, x) :: r => bind (ev k) (fun kv => bind (ev x) (fun xv => bind (set_index d kv xv) (eval_pairs r)))
+      end.
+    (* an f-string: every part is evaluated and formatted before the next one is evaluated *)
+    Fixpoint eval_fmt (l : list expr) : res (list Z) :=
+      match l with
+      | [] => Ok []
+      | x :: r => bind (ev x) (fun v => bind (str_of v) (fun s => bind (eval_fmt r) (fun t => Ok (s ++ t))))
       end.
   End Lists.
 
@@ -460,6 +567,8 @@ Section Interp.
           | VList l | VTuple l => Ok (VInt (lenZ l))
           | VDict d => Ok (VInt (lenZ d))
           | VText s => Ok (VInt (lenZ s))
+          | VSet s => Ok (VInt (lenZ s))
+          | VCounter d => Ok (VInt (lenZ d))
           | _ => Err 4
           end)
     | ERange a =>
@@ -514,6 +623,8 @@ Section Interp.
               match lv, xv with
               | VText s, VText p => Ok (VBool (xorb neg (text_sub p s)))
               | VText _, _ => Err 4
+              | VSet vs, _ =>
+                  if hashable xv then Ok (VBool (xorb neg (existsb (fun y => py_eq y xv) vs))) else Err E_Unsupported
               | _, _ => Err E_Unsupported
               end
           | Some vs => Ok (VBool (xorb neg (existsb (fun y => py_eq y xv) vs)))
@@ -543,6 +654,9 @@ Section Interp.
           | VList _ | VDict _ | VDDict _ => Ok x
           | _ => Err E_Unsupported
           end)
+    | ECounter => Ok (VCounter [])
+    | ESet => Ok (VSet [])
+    | EFmt l => bind (eval_fmt (fun e' => eval e' en) l) (fun s => Ok (VText s))
     end.
 
   Inductive outcome :=
@@ -765,6 +879,22 @@ Section Interp.
         match bind (eval e en) (fun v => bind (read_var x en) (fun a =>
                 bind (eval_list (fun e' => eval e' en) path) (fun idx =>
                   bind (set_path a idx v) (fun a' => Ok (update x a' en))))) with
+        | Ok en' => ONorm en'
+        | Err k => OErr k
+        end
+    | SSetAdd x e =>
+        match bind (read_var x en) (fun a => bind (eval e en) (fun v =>
+                match a with
+                | VSet l => if hashable v then Ok (update x (VSet (set_add l v)) en) else Err E_Unsupported
+                | _ => Err E_Unsupported
+                end)) with
+        | Ok en' => ONorm en'
+        | Err k => OErr k
+        end
+    | SSetAttr x path cands e =>
+        match bind (eval e en) (fun v => bind (read_var x en) (fun a =>
+                bind (eval_list (fun e' => eval e' en) path) (fun idx =>
+                  bind (set_attr_path a idx cands v) (fun a' => Ok (update x a' en))))) with
         | Ok en' => ONorm en'
         | Err k => OErr k
         end
